@@ -687,7 +687,10 @@ def seeded_setup(torch, cfg):
     if cfg.get("x_is_z"):
         X = vs.inducing_points.detach().clone()
     if cfg.get("x_at_nodes") is not None:                 # the strategy's own grid nodes (built in float32, then cast)
-        X = vs.grid[torch.tensor(cfg["x_at_nodes"]), 0].detach().clone().unsqueeze(-1)
+        if len(cfg["grid_bounds"]) == 1:
+            X = vs.grid[torch.tensor(cfg["x_at_nodes"]), 0].detach().clone().unsqueeze(-1)
+        else:                                             # d >= 2: rows of the strategy's own inducing points (the j-th value belongs to the j-th point)
+            X = vs.inducing_points.detach()[torch.tensor(cfg["x_at_nodes"])].clone()
         X = X.expand(*bx, *X.shape).clone()
     # conditioning of the oracle side
     pts = [p for p in (Z, Zc) if p is not None] or [vs.inducing_points.detach()]
@@ -1731,7 +1734,11 @@ def run(ck):
                                                     seed=ck.seed * 1000 + 500 + n, x_is_z=True)))
             cases.append(dict(kind="seed", cfg=dict(strat="GridInterpolationVariationalStrategy", dist=dist, bz=[], bp=bp, bx=[], kernel="matern25", jitter=None,
                                                     seed=ck.seed * 1000 + 600 + n, grid_size=8, grid_bounds=[[-1.0, 1.0]], x_at_nodes=[2, 4, 5], ls=0.35)))
-            extra += 2
+            # grids over two input dimensions with different extents: the order of the inducing points matters (dimension 0 slowest in the
+            # interpolation's enumeration) - nodes that differ in one coordinate only, in the other only, in both
+            cases.append(dict(kind="seed", cfg=dict(strat="GridInterpolationVariationalStrategy", dist=dist, bz=[], bp=bp, bx=[], kernel="matern25", jitter=None,
+                                                    seed=ck.seed * 1000 + 650 + n, grid_size=5, grid_bounds=[[-1.0, 1.0], [0.0, 3.0]], x_at_nodes=[1, 5, 8, 17, 23], ls=0.6, d=2)))
+            extra += 3
     # (d)
     n_same = 0
     for n, (dist, bz, bp, bx) in enumerate(itertools.product(("Cholesky", "MeanField", "Delta", "Natural", "TrilNatural"), ([], [2]), ([], [2]), ([], [2]))):
